@@ -680,8 +680,8 @@ func (s *Stream) Bytes() ([]byte, error) {
 		s.kind = -1 // rearm Kind
 		return []byte{s.byteval}, nil
 	case String:
-		b := make([]byte, size)
-		if err = s.readFull(b); err != nil {
+		b, err := s.readContent(0, size)
+		if err != nil {
 			return nil, err
 		}
 		if size == 1 && b[0] < 128 {
@@ -706,8 +706,8 @@ func (s *Stream) Raw() ([]byte, error) {
 	// the original header has already been read and is no longer
 	// available. read content and put a new header in front of it.
 	start := headsize(size)
-	buf := make([]byte, uint64(start)+size)
-	if err := s.readFull(buf[start:]); err != nil {
+	buf, err := s.readContent(start, size)
+	if err != nil {
 		return nil, err
 	}
 	if kind == String {
@@ -1025,6 +1025,41 @@ func (s *Stream) readFull(buf []byte) (err error) {
 		err = io.ErrUnexpectedEOF
 	}
 	return err
+}
+
+// maxUncheckedAlloc is the largest buffer allocated up front for a value
+// whose declared size could not be checked against an input limit.
+const maxUncheckedAlloc = 64 * 1024
+
+// readContent returns a buffer of prefix+size bytes whose last size bytes
+// are read from the stream. Without an input limit the declared size is
+// untrusted, so the buffer grows with the data that actually arrives
+// instead of being allocated up front.
+func (s *Stream) readContent(prefix int, size uint64) ([]byte, error) {
+	if s.limited || size <= maxUncheckedAlloc {
+		buf := make([]byte, uint64(prefix)+size)
+		if err := s.readFull(buf[prefix:]); err != nil {
+			return nil, err
+		}
+		return buf, nil
+	}
+	buf := make([]byte, prefix, prefix+maxUncheckedAlloc)
+	for read := uint64(0); read < size; {
+		n := uint64(maxUncheckedAlloc)
+		if have := uint64(len(buf)); have > n {
+			n = have
+		}
+		if n > size-read {
+			n = size - read
+		}
+		old := len(buf)
+		buf = append(buf, make([]byte, n)...)
+		if err := s.readFull(buf[old:]); err != nil {
+			return nil, err
+		}
+		read += n
+	}
+	return buf, nil
 }
 
 func (s *Stream) readByte() (byte, error) {
